@@ -722,8 +722,8 @@ namespace avel {
         auto lo = _mm512_unpacklo_epi8(decay(v), decay(v));
         auto hi = _mm512_unpackhi_epi8(decay(v), decay(v));
 
-        lo = _mm512_slli_epi16(lo, S);
-        hi = _mm512_slli_epi16(hi, S);
+        lo = _mm512_slli_epi16(lo, S % 8);
+        hi = _mm512_slli_epi16(hi, S % 8);
 
         lo = _mm512_srli_epi16(lo, 8);
         hi = _mm512_srli_epi16(hi, 8);
